@@ -19,7 +19,10 @@
    blocks, blocks 5 and 1000 pay the restored wallet; crash after the first rescan batch; the
    node abandons 1000..1002 and grows to 3010; after the restart the wallet becomes ready and
    reports 12 MASS, the chain pays 5; with the node at 1500 — no fast-forward — it reports 5).
-   NOT tied to the Go code by a correspondence check yet; definitions and one witness only. *)
+   Reproduced through the committed harness by the import-only family of harness/cmd/c06
+   (harness/internal/cfsim/importonly.go) and repaired in /repo (KNOWN_FINDINGS.txt, fixed: C06):
+   the switch [f_ff_check] of Import.v's [fixes] selects the code as found (false) or as repaired
+   (true).  General theorems for the repaired Start: ResumeFFProofs.v. *)
 From Coq Require Import List ZArith NArith Bool.
 Import ListNotations.
 Open Scope Z_scope.
@@ -43,14 +46,56 @@ Fixpoint ff_records (n : node) (st : xstate) (upto : Z) (fuel : nat) : xstate :=
       else st
   end.
 
+(* FetchBlockShaByHeight(syncHeight) = bestBlock.Hash: the stored tip is still the node's block at
+   its height *)
+Definition tip_on_node (n : node) (st : xstate) : bool :=
+  match node_at n (fst (tip (x_w st))) with
+  | Some b => (b_id b =? snd (tip (x_w st)))%N
+  | None => false
+  end.
+
+(* Start() with its fast-forward.  [f_ff_check fx = false]: the code as found — when no wallet is
+   ready and the node is more than [ff] blocks long the sync records of the heights
+   syncHeight+1 .. indexHeight-ff-1 are written, whatever the stored tip is.
+   [f_ff_check fx = true]: as repaired — before fast-forwarding, the stored tip is compared with the
+   node's block at that height; if it was replaced, the next block goes through
+   processConnectedBlock (the reorganisation path: rollback, cursors pulled back) first; a
+   failure there fails the start, as in the ordinary catch-up. *)
 Definition start_sync_ff (fx : fixes) (p : params) (ff : Z) (n : node) (st : xstate) : xres xstate :=
   let index_h := Z.of_nat (length n) - 1 in
-  start_sync fx p n (if negb (has_ready st) && (ff <? index_h) then ff_records n st (index_h - ff) (length n) else st).
+  let sync_h := fst (tip (x_w st)) in
+  if negb (has_ready st) && (ff <? index_h) && (sync_h + 1 <? index_h - ff) then
+    if f_ff_check fx && negb (tip_on_node n st) then
+      match node_at n (sync_h + 1) with
+      | Some b =>
+          match xprocess fx p n st b with
+          | XOk st1 => start_sync fx p n (ff_records n st1 (index_h - ff) (length n))
+          | XErr => XErr
+          | XPanic => XPanic
+          end
+      | None => XErr
+      end
+    else start_sync fx p n (ff_records n st (index_h - ff) (length n))
+  else start_sync fx p n st.
 
 (* without the fast-forward branch it is Remove.v's Start *)
 Lemma start_sync_ff_off : forall fx p ff n st,
   negb (has_ready st) && (ff <? Z.of_nat (length n) - 1) = false -> start_sync_ff fx p ff n st = start_sync fx p n st.
 Proof. intros fx p ff n st H. unfold start_sync_ff. rewrite H. reflexivity. Qed.
+
+(* the code as it was when the defect was found (/repo d0557bc): every repair made until then, not this
+   one, and not yet asyncImport's check that the chain it reads is the chain the handler is synced to
+   ([f_import_tipcheck], C07, made since).  With that check and without this repair the same restart
+   does not end with a wrong report but with a rescan that is retried for ever: the stored record of
+   the batch's last height is the abandoned block's (observed on the real code: import-only family of
+   harness/cmd/c06, crash right after ImportWallet). *)
+Definition before_ff_check : fixes :=
+  {| f_removable := true; f_rollback := true; f_import_retry := true; f_start_reorg := true; f_rollback_order := true;
+     f_import_tipcheck := false; f_removable_debit := true; f_ff_check := false; f_keystore_undo := true |}.
+(* ... and with that check (the code in /repo right before this repair) *)
+Definition tipcheck_no_ff_check : fixes :=
+  {| f_removable := true; f_rollback := true; f_import_retry := true; f_start_reorg := true; f_rollback_order := true;
+     f_import_tipcheck := true; f_removable_debit := true; f_ff_check := false; f_keystore_undo := true |}.
 
 (* ---------------------------------------------------------------- the witness *)
 
@@ -72,35 +117,52 @@ Definition chainC : list block :=
 (* the wallet is restored on chain A (batch size 2): one batch, cursor 2, both coins stored *)
 Definition stF0 : xstate := match import_start (xinit chainA) 1 7 [1%N] with Some s => s | None => xinit chainA end.
 Definition stF1 : xstate := fst (import_batch repaired pF 2 chainA stF0 1).
-(* crash; the node is on chain C when the process comes back; Start with ff = 2 *)
-Definition stF2 (ff : Z) : xstate :=
-  match start_sync_ff repaired pF ff chainC (xreopen stF1) with XOk s => s | _ => xreopen stF1 end.
-(* the re-created task runs to the end.  (The batches are those of the code before asyncImport compared the
-   node's block at the batch's upper height with the synced one, [f_import_tipcheck]: at this scale — batch
-   size 2, upper height 4, where the abandoned record (4, 4) still lies under the node's — that comparison
-   would refuse every batch and the wallet would stay importing for ever instead; in the run on the real
-   code the first batch after the restart ends at height 2000, inside the fast-forwarded records.) *)
-Definition fxF : fixes :=
-  {| f_removable := true; f_rollback := true; f_import_retry := true; f_start_reorg := true; f_rollback_order := true;
-     f_import_tipcheck := false; f_removable_debit := true; f_ff_check := true; f_keystore_undo := true |}.
-Definition stF3 (ff : Z) : xstate := fold_left (fun s _ => fst (import_batch fxF pF 2 chainC s 1)) [tt; tt; tt; tt] (stF2 ff).
+(* crash; the node is on chain C when the process comes back; Start with fast-forward margin ff *)
+Definition stF2 (fx : fixes) (ff : Z) : xstate :=
+  match start_sync_ff fx pF ff chainC (xreopen stF1) with XOk s => s | _ => xreopen stF1 end.
+(* the re-created task runs to the end *)
+Definition stF3 (fx : fixes) (ff : Z) : xstate :=
+  fold_left (fun s _ => fst (import_batch fx pF 2 chainC s 1)) [tt; tt; tt; tt] (stF2 fx ff).
 
 Theorem ff_stale_import_refuted :
   (* at the crash: importing, cursor 2, not ready, the stored tip (block 4) abandoned by the node *)
   status_of stF1 1 = Some (WImporting 2) /\ has_ready stF1 = false /\
   synced (x_w stF1) = [(4, 4%N); (3, 3%N); (2, 2%N); (1, 1%N); (0, 0%N)] /\
-  (* Start with the fast-forward (ff = 2 < 8): succeeds, the records of the abandoned blocks 2..4
-     stay under those of the node's chain, the cursor stays at 2 *)
-  start_sync_ff repaired pF 2 chainC (xreopen stF1) = XOk (stF2 2) /\
-  synced (x_w (stF2 2)) = [(8, 18%N); (7, 17%N); (6, 16%N); (5, 15%N); (4, 4%N); (3, 3%N); (2, 2%N); (1, 1%N); (0, 0%N)] /\
-  status_of (stF2 2) 1 = Some (WImporting 2) /\
+  tip_on_node chainC (xreopen stF1) = false /\
+  (* Start as found with the fast-forward (ff = 2 < 8): succeeds, the records of the abandoned blocks
+     2..4 stay under those of the node's chain, the cursor stays at 2 *)
+  start_sync_ff before_ff_check pF 2 chainC (xreopen stF1) = XOk (stF2 before_ff_check 2) /\
+  synced (x_w (stF2 before_ff_check 2)) =
+    [(8, 18%N); (7, 17%N); (6, 16%N); (5, 15%N); (4, 4%N); (3, 3%N); (2, 2%N); (1, 1%N); (0, 0%N)] /\
+  status_of (stF2 before_ff_check 2) 1 = Some (WImporting 2) /\
   (* the rescan finishes: the wallet is ready, synced to the node's tip, and reports 12; the chain pays 5 *)
-  status_of (stF3 2) 1 = Some WReady /\ fst (tip (x_w (stF3 2))) = 8 /\
-  r_total (xreport (stF3 2) 1) = 12 /\
-  r_total (spec_report pF (key_owner (stF3 2)) chainC 1) = 5 /\
+  status_of (stF3 before_ff_check 2) 1 = Some WReady /\ fst (tip (x_w (stF3 before_ff_check 2))) = 8 /\
+  r_total (xreport (stF3 before_ff_check 2) 1) = 12 /\
+  r_total (spec_report pF (key_owner (stF3 before_ff_check 2)) chainC 1) = 5 /\
   (* the same restart without the fast-forward (ff = 2000): the reorganisation is processed, the
      cursor is pulled back, the report is the specification *)
-  status_of (stF2 2000) 1 = Some (WImporting 1) /\
-  status_of (stF3 2000) 1 = Some WReady /\
-  xreport (stF3 2000) 1 = spec_report pF (key_owner (stF3 2000)) chainC 1.
+  status_of (stF2 before_ff_check 2000) 1 = Some (WImporting 1) /\
+  status_of (stF3 before_ff_check 2000) 1 = Some WReady /\
+  xreport (stF3 before_ff_check 2000) 1 = spec_report pF (key_owner (stF3 before_ff_check 2000)) chainC 1 /\
+  (* with asyncImport's chain check (the code right before this repair) the same fast-forward leaves a
+     rescan that never finishes: the record of the batch's upper height 4 is the abandoned block's, every
+     batch is refused, the wallet stays "importing" *)
+  synced (x_w (stF2 tipcheck_no_ff_check 2)) = synced (x_w (stF2 before_ff_check 2)) /\
+  snd (import_batch tipcheck_no_ff_check pF 2 chainC (stF2 tipcheck_no_ff_check 2) 1) = IRetry /\
+  status_of (stF3 tipcheck_no_ff_check 2) 1 = Some (WImporting 2).
+Proof. vm_compute. repeat split; reflexivity. Qed.
+
+(* the same crash, the same fast-forward margin, Start as repaired: the stored tip (4, block 4) is not
+   the node's block 14 of that height, so block 15 (height 5) goes through the reorganisation path
+   first: rollback to the fork at height 1 (the coin of the abandoned block 2 is deleted, the cursor is
+   pulled back to 1), blocks 12..15 connected; the fast-forward has nothing left below 8 - 2, blocks
+   16..18 are processed; the rescan finishes and the report is the specification *)
+Example ff_stale_import_repaired :
+  start_sync_ff repaired pF 2 chainC (xreopen stF1) = XOk (stF2 repaired 2) /\
+  synced (x_w (stF2 repaired 2)) =
+    [(8, 18%N); (7, 17%N); (6, 16%N); (5, 15%N); (4, 14%N); (3, 13%N); (2, 12%N); (1, 1%N); (0, 0%N)] /\
+  status_of (stF2 repaired 2) 1 = Some (WImporting 1) /\
+  status_of (stF3 repaired 2) 1 = Some WReady /\
+  r_total (xreport (stF3 repaired 2) 1) = 5 /\
+  xreport (stF3 repaired 2) 1 = spec_report pF (key_owner (stF3 repaired 2)) chainC 1.
 Proof. vm_compute. repeat split; reflexivity. Qed.
